@@ -77,7 +77,7 @@ package sqlite
 //@   props C10
 //@   requires s != nil && rows != nil && rowpos(payload(rows)) == 0
 //@   loop 1 invariant [C10.scan.loop] len(events) == rowpos(payload(rows)) && len(events) <= rowsAvail(payload(rows)) &&
-//@        (forall k int :: {events[k]} 0 <= k && k < len(events) ==> events[k] != nil && events[k].Offset == dec(scancolInt(payload(rows), k, 0)))
+//@        (forall k int :: {events[k]} 0 <= k && k < len(events) ==> events[k] != nil && allocated(events[k]) && events[k].Offset == dec(scancolInt(payload(rows), k, 0)))
 //@   loop 1 owned events
 //@   ensures [C10.scan.all] err == nil ==> len(result0) == rowsTotal(payload(rows)) && !rowsFailed(payload(rows)) &&
 //@        (forall k int :: {result0[k]} 0 <= k && k < len(result0) ==> result0[k] != nil && result0[k].Offset == dec(scancolInt(payload(rows), k, 0)))
